@@ -181,6 +181,28 @@ PROPS = {
         "not_decided": ["Node::convert's pairing of witness and arrow", "human-encoding witness map", "execution never writes a wrong width (interpreter)"],
         "explanation": "",
     },
+    "C18": {
+        "units": ["dag"],
+        "kani": {"quick": [], "thorough": []},
+        "level": "proof",
+        "level_text": "Unbounded deductive proof (Verus) on the real, generic PostOrderIter::next (explicit-stack algorithm): under a stack invariant proved "
+                      "to be established by the constructors and preserved by every step, `next` never panics (its three asserts and all indexing), terminates, "
+                      "numbers items consecutively, reports a child index exactly for the children that exist, each index being smaller than the item's own and "
+                      "pointing at the place where that child (its sharing class) was yielded, and yields a sharing class only if it was not yielded before. "
+                      "Also: the provided left_child/right_child, IterStackItem helpers, NoSharing, SwapChildren::as_dag_node + PostOrderIterItem::unswap "
+                      "(right-to-left = mirror image), PreOrderIter::next (parent first, once per class, skipped entries already yielded).",
+        "level_note": "Assumed (R5): the contracts of the two traits — DagLike (as_dag_node is a pure function of the node; the DAG is finite/acyclic) and "
+                      "SharingTracker (a table from sharing class to first index) — which the HashMap-based trackers InternalSharing / MaxSharing / EncodeSharing are "
+                      "NOT proved to meet (entry API); a ghost history field is added to PostOrderIter. Not decided: completeness (every reachable class is eventually "
+                      "yielded), set equality of pre-order and post-order, is_shared_as, VerbosePreOrderIter.",
+        "assumptions": [
+            "DagLike implementors: as_dag_node deterministic; finite acyclic DAG (rank)",
+            "SharingTracker implementors obey the class-table contract (proved only for NoSharing)",
+            "fewer than 2^64 nodes yielded",
+        ],
+        "not_decided": ["completeness of the iteration", "pre-order/post-order set equality", "is_shared_as", "the HashMap trackers' bodies"],
+        "explanation": "",
+    },
 }
 
 NOT_APPLICABLE = [
